@@ -47,7 +47,7 @@ def _canon(d):
 
 
 class _Fut:
-    __slots__ = ("fn", "args", "cb", "_res", "seq")
+    __slots__ = ("fn", "args", "cb", "_res", "seq", "done", "thread")
 
     def __init__(self, fn, args, seq):
         self.fn = fn
@@ -113,6 +113,10 @@ class SchedPlan:
         self.transport = ["shared", "pickled", "mixed"][tape.weighted([3, 2, 1], f"{label}.transport")]
         # probability (in 1/8) that a completion choice deviates from the default
         self.reorder = [0, 2, 4, 8][tape.draw(4, f"{label}.reorder")]
+        # pre-emptive sub-mode: in-flight tasks run in parked threads and interleave at every
+        # line of pulsarbat code they execute (as on the threaded scheduler)
+        self.preempt = self.mode == "dask-core" and self.W > 1 and tape.chance(1, 3, f"{label}.preempt")
+        self.preempt_switch = [1, 4, 8][tape.draw(3, f"{label}.pswitch")] if self.preempt else 0
         self.fault = "none"
         self.fault_at = 0
         if allow_faults:
@@ -123,6 +127,7 @@ class SchedPlan:
     def describe(self):
         return {"mode": self.mode, "W": self.W, "chunksize": self.chunksize,
                 "transport": self.transport, "reorder_eighths": self.reorder,
+                "preemptive": self.preempt,
                 "fault": self.fault, "fault_at": self.fault_at}
 
 
@@ -196,11 +201,28 @@ class SimScheduler:
         seq = [0]
         sim = self
 
+        from . import sched as schedmod
+        psched = None
+        # only worth it when some task executes pulsarbat code (chirps, reads): all other
+        # tasks are NumPy/SciPy/Dask kernels without pre-emption points
+        has_lib_tasks = any(("_transfer_function" in str(k)) or ("_read_array" in str(k)) for k in dsk)
+        if plan.preempt and has_lib_tasks and schedmod.ACTIVE["sched"] is None:
+            psched = schedmod.Sched(ctx, switch_eighths=plan.preempt_switch, trace_files=("",),
+                                    tool_id=5, step_mode=True)
+            psched.start()
+            ctx.probe("preemptive_task_execution")
+
         def submit(fn, *args):
             f = _Fut(fn, args, seq[0])
             seq[0] += 1
             inflight.append(f)
             sim.max_inflight = max(sim.max_inflight, len(inflight))
+            if psched is not None:
+                def body(t, f=f):
+                    f._res = f.fn(*f.args)
+                    f.done = True
+                f.done = False
+                f.thread = psched.spawn_started(f"task{f.seq}", body)
             return f
 
         def queue_get(q):
@@ -223,7 +245,28 @@ class SimScheduler:
                 ctx.sched(f"{label}.complete", i)
             else:
                 ctx.steps += 1
-            f = inflight.pop(i)
+            f = inflight[i]
+            if psched is not None:
+                # run the chosen batch's thread; it may interleave with the other in-flight
+                # batches; whichever batch finishes first is the one that completes
+                lines0 = psched.switches
+                while True:
+                    fin = [g for g in inflight if g.done]
+                    if fin:
+                        f = fin[0]
+                        break
+                    t = f.thread if not f.thread.done else next(
+                        g.thread for g in inflight if not g.thread.done)
+                    psched.resume(t)
+                if psched.switches != lines0:
+                    ctx.probe("tasks_interleaved_at_line_level")
+                inflight.remove(f)
+                keys_in_batch = [a[0] for a in f.args[0]]
+                for k in keys_in_batch:
+                    sim.completed += 1
+                    sim.order_log.append(norm_key(k))
+                return f
+            inflight.pop(i)
             keys_in_batch = [a[0] for a in f.args[0]]
             # --- task failure fault --------------------------------------------
             if plan.fault == "task_oserror" and not sim.fault_fired \
@@ -252,6 +295,8 @@ class SimScheduler:
         finally:
             _TLS.getter = prev
             self.ntasks += self.completed
+            if psched is not None:
+                psched.finish()
 
     # -- mode free-order -----------------------------------------------------------
     def _free_order(self, dsk, keys):
